@@ -78,13 +78,24 @@ func (s StatementType) IsDDL() bool {
 
 //GetStatementCategory we can get statement type from a SQL
 func GetStatementCategory(sql string) StatementType {
-	if i := strings.IndexByte(sql, byte(' ')); i >= 0 {
-		sql = sql[:i]
+	// statements are logged as the client wrote them: the keyword may be
+	// followed by a tab or a line break instead of a blank
+	rest := ""
+	if i := strings.IndexAny(sql, " \t\r\n"); i >= 0 {
+		sql, rest = sql[:i], sql[i+1:]
 	}
-	if s, ok := statementPrefixes[strings.ToLower(sql)]; ok {
-		return s
+	s, ok := statementPrefixes[strings.ToLower(sql)]
+	if !ok {
+		return StatementUnknown
 	}
-	return StatementUnknown
+	if s == StatementRollback {
+		// ROLLBACK TO [SAVEPOINT] x undoes part of an open transaction (it is
+		// logged when a non-transactional table was touched); it does not end it
+		if f := strings.Fields(rest); len(f) > 0 && strings.EqualFold(f[0], "to") {
+			return StatementUnknown
+		}
+	}
+	return s
 }
 
 //列数据类型
